@@ -64,9 +64,9 @@
 //!
 //! ```text
 //! Bits    Field       Description
-//! 0-12    offset      Offset to node data within page
+//! 0-12    offset      Offset to node data within page (low 13 bits)
 //! 13-14   status      0=free, 1=active, 2=deleted
-//! 15      reserved    Reserved bit
+//! 15      offset      Bit 13 of the offset (pages are 16 KiB)
 //! 16-31   size        Size of node data in bytes
 //! ```
 //!
@@ -337,7 +337,12 @@ impl SlotEntry {
 
     pub fn encode(&self) -> [u8; 4] {
         let mut bytes = [0u8; 4];
-        let offset_and_status = (self.offset & 0x1FFF) | ((self.status as u16) << 13);
+        // 14-bit offset: bits 0-12 and, for the upper half of the 16 KiB page, the formerly
+        // reserved bit 15 (slots are allocated downwards from the page end, so the first
+        // slots of every page start above 8191)
+        let offset_and_status = (self.offset & 0x1FFF)
+            | ((self.status as u16) << 13)
+            | (((self.offset >> 13) & 0x1) << 15);
         bytes[0..2].copy_from_slice(&offset_and_status.to_le_bytes());
         bytes[2..4].copy_from_slice(&self.size.to_le_bytes());
         bytes
@@ -345,7 +350,7 @@ impl SlotEntry {
 
     pub fn decode(bytes: &[u8]) -> Self {
         let offset_and_status = u16::from_le_bytes([bytes[0], bytes[1]]);
-        let offset = offset_and_status & 0x1FFF;
+        let offset = (offset_and_status & 0x1FFF) | ((offset_and_status >> 15) << 13);
         let status = SlotStatus::from_byte(((offset_and_status >> 13) & 0x3) as u8);
         let size = u16::from_le_bytes([bytes[2], bytes[3]]);
         Self {
